@@ -3,6 +3,36 @@
 import json, subprocess
 
 CHECKS = {
+ "C01": dict(
+   technique="property-based testing (proptest, type-directed generation + mutation) + bounded-exhaustive enumeration; oracle = classification of stuck terms",
+   text="Progress is tested on the programs gram itself accepts: type-directed generated programs (plain, erased, hole-inserted), type-breaking mutants that slip through, a risky-definition-order class built around the boundary of the definition-order check (later / nested / function-body references, nesting depth 3), every closed explicit program up to size 5/6, the examples and the inputs quoted in the property. Each is run with gram's own step relation under a budget; a stuck term is classified by descending the CBV evaluation contexts, and only `literal / 0` is allowed. Sampled beyond the enumerated size.",
+   note="Three recorded findings are matched by signature on the blocking redex (later value definition; unresolved hole; wrong-kind redex + hole-copy hook). Needs the de_bruijn hook for attribution only.",
+   ref="DESIGN.md section 3, C01"),
+ "C02": dict(
+   technique="property-based testing (proptest, type-directed generation) against an independent call-by-value interpreter",
+   text="Differential testing of gram's evaluator (step loop on the elaborated term) against an independent environment-based CBV interpreter run on the source program: same literal for int/bool results (boundary integers up to 10^40, all operators and sign combinations), same kind for function/type results, 'stops at literal / 0' on both sides (poisoned branches, ignored arguments, unused definitions), recursion and mutual recursion to depth 300/2000. Sampled.",
+   note="Trusts R-cbv (written from the property statement) and BigInt arithmetic (cross-checked against i128 in the self-test).",
+   ref="DESIGN.md section 3, C02"),
+ "C03": dict(
+   technique="property-based testing (proptest, generation + type-breaking mutation) + bounded-exhaustive enumeration against an independent type checker (NbE conversion)",
+   text="Whenever gram accepts a generated, perturbed, erased or enumerated program, an independent checker for explicit terms must find the elaborated term well scoped, well typed, and of a type convertible with the reported one; explicit programs the independent checker rejects must be rejected. 70% of generated programs carry 1-2 type-breaking mutations; all closed explicit programs up to size 5/6 are enumerated, so each side condition is exercised in isolation (the evidence lists per-rule rejection counts).",
+   note="Trusts R-core's typing rules and NbE conversion; elaborated terms with unresolved holes are outside its domain. One recorded finding (hole identity lost) is matched by hook counter + failure shape.",
+   ref="DESIGN.md section 3, C03"),
+ "C04": dict(
+   technique="property-based testing (proptest, type-directed generation); oracle = value shape + independent type inference on the value",
+   text="For accepted generated programs over int, bool, type, function, dependent-function and computed types, the value reached by gram's step loop is compared with the reported type: by shape, and by inferring a type for the value with the independent checker and testing convertibility with the reported type. Sampled.",
+   note="Trusts R-core; values / types with unresolved holes are outside its domain.",
+   ref="DESIGN.md section 3, C04"),
+ "C05": dict(
+   technique="property-based testing (proptest, type-directed generation) with a reference checker as domain filter and a pre-check snapshot",
+   text="Fully annotated programs produced by type-directed generation (polymorphic, higher-order, dependent, recursive and mutually recursive groups, forward type aliases, nesting) that the independent checker accepts must be accepted by gram at a convertible type (an abort of the checker is a violation: the inputs terminate by construction), and the elaborated term must equal the parser's output snapshot except at holes. Sampled.",
+   note="Trusts R-core as the definition of 'well typed'.",
+   ref="DESIGN.md section 3, C05"),
+ "C06": dict(
+   technique="property-based testing (proptest): differential (normaliser vs evaluator), metamorphic (reducts), and agreement with NbE normal-form equality",
+   text="(a) normalize_weak_head equals the evaluator's literal on closed ground programs; (b) unify(t,t) and unify with every sampled term of t's step sequence and with reference reducts (beta, arithmetic, if) at random positions, both argument orders; (c,d) for pairs of closed hole-free terms of one type, unify(a,b) = unify(b,a) = equality of NbE normal forms. The evidence reports the equal / unequal split. Sampled.",
+   note="Trusts R-core's NbE and the reference reducer; pairs with recursive definitions are excluded from (c,d).",
+   ref="DESIGN.md section 3, C06"),
  "C07": dict(
    technique="bounded-exhaustive enumeration + property-based testing (proptest) against a chart parser that reads grammar.y",
    text="Differential testing of parse() against a general CFG recogniser with derivation counting that works on the productions read from /repo/grammar.y: every token string up to length 4 (quick) / 5 (thorough) over the 28 token kinds, random longer token strings, proptest-generated sentences with every former in every position and redundant parentheses, and one/two-token mutations of sentences. For sentences gram's tree must equal the unique derivation with the three chain kinds left-associated and lets flattened; every string examined must have at most one derivation. Exhaustive for short strings, sampled beyond.",
